@@ -99,8 +99,16 @@ Definition sw_inner (l : list node) : res (list node) :=
   | _ => Err IndexError                        (* tokens[-2]; unreachable after sw_popm2 *)
   end.
 
-Definition sw_paren (l : list node) : res (list node) :=
+Definition sw_paren_body (l : list node) : res (list node) :=
   l1 <- sw_pop1 l ;; l2 <- sw_popm2 l1 ;; l3 <- sw_inner l2 ;; Ok (sw_default l3).
+
+(* if len(tlist.tokens) < 2: return self._stripws_default(tlist)
+   (a later grouping pass wrapped the whole parenthesis: `(as)`; fix of finding C07-RX-1) *)
+Definition sw_paren (l : list node) : res (list node) :=
+  match l with
+  | [] | [_] => Ok (sw_default l)
+  | _ :: _ :: _ => sw_paren_body l
+  end.
 
 (* ---- _stripws: getattr(self, '_stripws_' + type(tlist).__name__.lower(), self._stripws_default) *)
 Definition sw_dispatch (c : cls) (l : list node) : res (list node) :=
